@@ -84,7 +84,8 @@ def handle : Handler := fun op inp =>
       let cells ← natList (← field inp "cells")
       return jObj [
         ("loop", jExcept (jList jLevels) (runLevelLoop t vote cells)),
-        ("walk", jExcept (jList jLevels) (cells.mapM (walk t vote)))]
+        ("walk", jExcept (jList jLevels) (cells.mapM (walk t vote))),
+        ("wf", jBool (wfb t))]
   | "levelloop.pipeline" => some do
       let t ← Tree.parseTree (← field inp "tree")
       let cfg ← parseConfig (← field inp "config")
@@ -97,6 +98,7 @@ def handle : Handler := fun op inp =>
       return jObj [
         ("result", jExcept (jList jRecord) (mapPipeline t cfg vote ids cells order)),
         ("runTree", jExcept Tree.jTree (runTree t cfg)),
+        ("runTreeWf", jBool (match runTree t cfg with | .ok rt => wfb rt | .error _ => false)),
         ("effChunk", jNat cs),
         ("chunks", jList (jPair jNat jNat) (chunks n cs))]
   | "levelloop.wf" => some do
